@@ -16,13 +16,20 @@ LEVEL_TEXT = (
     "independent of worker count / capacity / schedule, for ALL schedules; the aligner behind phasing: for the ATG-mode "
     "aligner on a sequence holding the reference verbatim exactly once, under gapopen <= gapextend < 0 and a diagonally "
     "dominant scheme, the returned alignment IS that occurrence and alignAgainstRefsNT trims exactly at its start "
-    "(..._partial theorems, from C09's cellR_brute / brute_upper / brute_attained). Tied to /repo by regenerated T3 facts "
+    "(..._partial theorems, from C09's cellR_brute / brute_upper / brute_attained); the amino-acid mode alignAgainstRefsAA "
+    "(default of `goalign phase`) is modelled completely (phaseAA: references x 3 or 6 translated frames, ATG-mode aligner, "
+    "strict-improvement rule, amino-acid -> nucleotide positions, assembly) and for ALL settings / references / sequences: "
+    "a removed result is the untrimmed input, every kept result's nucleotides are the substring of the chosen strand at "
+    "the reported position (= frame + 3*seqstart), codon sequence = nucleotides, amino acids = their frame-0 translation, "
+    "whole codons under cut-end, and on top of the repaired aligner no slice expression is out of range "
+    "(phase_aa_never_panics) and every kept result is assembleAA of a valid hit. Tied to /repo by regenerated T3 facts "
     "(instanceOfPool, raceFree, inputsUnmodified over Gen.Facts.phase, ORF search mode), by the correspondence of the "
     "ORF-search model, and by the executable C16 predicate evaluated on Phase's real output for cpus 1..32, also "
     "under the race detector with varied GOMAXPROCS.")
 LEVEL_NOTE = (
     "The framing theorems take the aligner's outcome as an arbitrary hit. The ATG-mode aligner and the hit selection of "
-    "alignAgainstRefsNT are modelled (lean/Gv/Model/PhaseAlign.lean, on top of C09's fillMatrix_SW model) and the clause 'a "
+    "alignAgainstRefsNT and alignAgainstRefsAA are modelled (lean/Gv/Model/PhaseAlign.lean: phaseNT, phaseAA, on top of C09's "
+    "fillMatrix_SW model; tied to the code by the phasent1 / phaseaa1 correspondence runs) and the clause 'a "
     "sequence containing the reference ORF verbatim once is trimmed at its start' is proved from C09's fill lemmas under "
     "explicit hypotheses (nucleotide mode, one reference, diagonally dominant scores: see 'partial'); "
     "elsewhere it is only checked as a predicate on the implementation. Go memory model / scheduler outside the model; the "
@@ -40,7 +47,10 @@ REQUIRED_THEOREMS = ["Gv.Props.C16." + n for n in [
     "atg_verbatim_aligned_at_occurrence_partial", "phase_nt_verbatim_trimmed_at_orf_start_partial",
     "phase_nt_verbatim_trimmed_matchmismatch_partial", "phase_nt_verbatim_trimmed_default_acgt_partial",
     "once_of_occurrences", "phase_nt_removed_is_untrimmed_input", "phase_nt_without_positive_alignment_is_removed",
-    "phase_nt_hit_shorter_than_frame_shift_reports_error", "atg_aligner_never_panics"]]
+    "phase_nt_hit_shorter_than_frame_shift_reports_error", "atg_aligner_never_panics",
+    # the amino-acid mode (alignAgainstRefsAA: selection over references x 3 / 6 frames + assembly), model phaseAA
+    "phase_aa_removed_is_untrimmed_input", "phase_aa_never_panics", "phase_aa_of_refs_never_panics",
+    "phase_aa_nt_is_substring_at_position", "phase_aa_codon_translates_to_aa", "phase_aa_ok_is_assembleAA"]]
 PARTIAL = [
     "'a sequence that contains the reference ORF verbatim once is trimmed exactly at that ORF's start' is PROVED (from the C09 "
     "lemmas about the repaired fillMatrix_SW) only as ..._partial: for the nucleotide mode (alignAgainstRefsNT, model "
@@ -59,7 +69,9 @@ PARTIAL = [
     "witness ATG vs CC) and c16-phaser-frame-shift-bounds.diff (codon start clamped to the end of the trimmed sequence; the "
     "empty codon sequence is then refused by Translate, i.e. an error is reported: witness ATG vs T with --gap-open -1); on the "
     "code before these repairs both inputs are run-time panics of the worker goroutine and the check fails with them. The "
-    "translate-mode function alignAgainstRefsAA is not modelled (its no-hit branch is only exercised by the phase op); that "
+    "translate-mode function alignAgainstRefsAA is modelled (phaseAA) with the length / match cut-offs switched off (the "
+    "harness op phaseaa1 sets them to -1: float ratios are outside the model) and proved panic-free on top of the repaired "
+    "aligner (phase_aa_never_panics); for the unrepaired aligner the model keeps the out-of-range branches. That "
     "phaseNT never panics is proved for the aligner (atg_aligner_never_panics) but not for the two remaining slice/index "
     "expressions of alignAgainstRefsNT (all-gap aligned row, beststart > bestend), which need a positive-score alignment "
     "without any residue pair",
@@ -81,7 +93,11 @@ RULE = (
     "longestorf / baglongestorf: random and constructed sequences (overlapping frames, lower case, U), both strands; "
     "atgalign: the ATG-mode aligner on reference + (verbatim / mutated / truncated / unrelated copy in random flanks, "
     "occasionally a second copy) and on tiny random pairs, gap penalties x {matrix, 5 match/mismatch pairs}; phasent1: "
-    "alignAgainstRefsNT on one sequence, 1-2 references, reverse x cut-end x 3 codes. "
+    "alignAgainstRefsNT on one sequence, 1-2 references, reverse x cut-end x 3 codes; phaseaa1: Phase() in translate mode "
+    "on one sequence (nucleotide reference ORFs translated by Phase(); flank + verbatim / mutated ORF + flank, some "
+    "reverse-complemented; two references with a truncated copy of the first; tiny and unrelated sequences; sequences of "
+    "0-4 nucleotides = translation-error path; no reference), reverse x cut-end x 3 codes x gap penalties x "
+    "{BLOSUM62, match/mismatch}. "
     "Non-trivial = phase input set with >= 2 sequences whose ORF copies lie in different frames, or an ORF-search "
     "input with >= 2 ATG..stop frames in different reading frames")
 TIMEOUT = P.TIMEOUT
@@ -302,6 +318,75 @@ def align_cases(rng, quick):
         mt, mm = rng.choice([("_", "_"), ("_", "_"), ("2", "-2"), ("4", "-1")])
         yield Case("phasent1", [2, go, ge, mt, mm, rng.choice([0, 0, 1]), rng.choice([0, 1]), rng.choice([0, 1, 2]),
                                 "ref:" + orf, seq], False, "phasent1-tiny")
+
+    # ---- the amino-acid mode (alignAgainstRefsAA, the default of `goalign phase`) on one sequence ----------------
+    for c in aa_cases(rng, quick):
+        yield c
+
+
+AA_GAPS = [("d", "d"), ("d", "d"), ("d", "d"), ("-20", "-1"), ("-24", "-1"), ("-4", "-1"), ("-2", "-2"), ("-2", "-1"), ("-1", "-1")]
+AA_SCORES = [("_", "_"), ("_", "_"), ("_", "_"), ("2", "-2"), ("10", "-8"), ("4", "-1")]
+
+
+def aa_cases(rng, quick):
+    """phaseaa1: Phase() in translate mode on ONE sequence (references = nucleotide ORFs, translated by Phase();
+    the 3 or 6 translations of the sequence aligned against each of them, best hit converted back to nucleotide
+    positions) against the model phaseAA, and the framing clauses evaluated on the implementation's result."""
+    # frame 1 of the forward strand; the reverse strand; no reference; a translation error after a frame-0 hit
+    yield Case("phaseaa1", [2, "d", "d", "_", "_", 0, 1, 0, "ref:ATGAAACCCGGGTAA", "CATGAAACCCGGGTAACC"], True, "phaseaa1-frame1")
+    yield Case("phaseaa1", [2, "d", "d", "_", "_", 1, 0, 0, "ref:ATGAAACCCGGGTAA", "GGTTACCCGGGTTTCATGG"], True, "phaseaa1-reverse-strand")
+    yield Case("phaseaa1", [2, "d", "d", "_", "_", 0, 0, 0, "_", "CCATGAAATAACC"], False, "phaseaa1-no-reference")
+    yield Case("phaseaa1", [2, "d", "d", "_", "_", 0, 0, 0, "ref:ATGTAA", "ATGT"], False, "phaseaa1-translation-error")
+    yield Case("phaseaa1", [2, "d", "d", "_", "_", 0, 0, 0, "ref:AT", "ATGAAATAA"], False, "phaseaa1-reference-shorter-than-a-codon")
+    for _ in range(220 if quick else 2200):
+        orf = make_orf(rng, rng.randint(2, 14))
+        verb = rng.random() < 0.4
+        body = orf if verb else mutate(rng, orf, rng.choice([0.02, 0.1, 0.3]), rng.random() < 0.3)
+        left, right = rnd(rng, rng.randint(0, 9)), rnd(rng, rng.randint(0, 9))
+        seq = left + body + right
+        reverse = rng.choice([0, 0, 1])
+        if reverse and rng.random() < 0.5:
+            seq = revcomp(seq)
+        refs = "ref:" + orf
+        if rng.random() < 0.25:
+            r2 = "ref2:" + make_orf(rng, rng.randint(2, 8))
+            refs = refs + "," + r2 if rng.random() < 0.5 else r2 + "," + refs
+        go, ge = rng.choice(AA_GAPS)
+        mt, mm = rng.choice(AA_SCORES)
+        yield Case("phaseaa1", [2, go, ge, mt, mm, reverse, rng.choice([0, 1]), rng.choice([0, 1, 2]), refs, seq],
+                   len(left) % 3 != 0 or (reverse == 1 and seq.count(orf) == 0), "phaseaa1")
+    for _ in range(40 if quick else 400):
+        # two references: a truncated copy of the first one opens the sequence, the longer second one follows in
+        # another frame; or the only copy lies on the reverse strand
+        r1 = make_orf(rng, rng.randint(4, 8))
+        r2 = make_orf(rng, rng.randint(9, 14))
+        k = rng.choice([0, 3, 4, 5, 7])
+        seq = r1[k:] + rnd(rng, rng.randint(0, 7)) + r2 + rnd(rng, rng.randint(0, 9))
+        reverse = rng.choice([0, 1])
+        if reverse and rng.random() < 0.5:
+            seq = revcomp(seq)
+        yield Case("phaseaa1", [2, "d", "d", "_", "_", reverse, rng.choice([0, 1]), rng.choice([0, 1, 2]),
+                                "ref:" + r1 + ",ref2:" + r2, seq], True, "phaseaa1-two-refs")
+        orf = make_orf(rng, rng.randint(3, 12))
+        seq = revcomp(rnd(rng, rng.randint(0, 12)) + orf + rnd(rng, rng.randint(0, 12)))
+        yield Case("phaseaa1", [2, "d", "d", "_", "_", 1, rng.choice([0, 1]), rng.choice([0, 1, 2]), "ref:" + orf, seq],
+                   True, "phaseaa1-reverse-strand")
+    for _ in range(200 if quick else 2000):
+        # unrelated / tiny sequences, small gap penalties: no positive alignment (removed result), one-residue hits,
+        # hits behind gaps; sequences of 0-4 nucleotides: a frame that cannot be translated (error path; a sequence
+        # of 3 or 4 nucleotides fails in frame 1 or 2 only, after frame 0 was aligned)
+        orf = make_orf(rng, rng.randint(0, 4)) if rng.random() < 0.6 else rnd(rng, rng.randint(3, 9))
+        k = rng.random()
+        if k < 0.25:
+            seq = rnd(rng, rng.randint(1, 4))
+        elif k < 0.8:
+            seq = rnd(rng, rng.randint(5, 12))
+        else:
+            seq = rng.choice("ACGT") * rng.randint(1, 10)
+        go, ge = rng.choice(AA_GAPS)
+        mt, mm = rng.choice(AA_SCORES)
+        yield Case("phaseaa1", [2, go, ge, mt, mm, rng.choice([0, 0, 1]), rng.choice([0, 1]), rng.choice([0, 1, 2]),
+                                "ref:" + orf, seq], False, "phaseaa1-tiny")
 
 
 def cli_cases(rng, quick):
